@@ -3,6 +3,8 @@
 package tcell
 
 import (
+	"github.com/gdamore/tcell/v2/terminfo"
+	"strings"
 	"unicode/utf8"
 
 	gencoding "github.com/gdamore/encoding"
@@ -109,4 +111,69 @@ func H09_rune() {
 	if x == 1 && width == 2 {
 		vsymAssert(false, "a cell in the last column never claims two columns")
 	}
+}
+
+// H09_caps: on every built-in ECMA-48-family description (cursor addressing starts with
+// CSI), every output capability the screen uses, expanded with TParm and written with
+// TPuts as the screen does, parses as complete control sequences and prints nothing:
+// no padding residue ($<..>), no parameter-language residue, no stray text.
+func H09_caps() {
+	ents := terminfo.VerifEntries()
+	ti := ents[vsymChoice("term", len(ents))]
+	vsymNote("term", ti.Name)
+	if !strings.HasPrefix(ti.SetCursor, "\x1b[") {
+		vsymAssert(ti.Name != "xterm-256color", "the ECMA-48 family includes xterm")
+		return
+	}
+	t := hNewTScreen(ti.Name)
+	tty := newHTty(8, 4)
+	t.tty = tty
+	tty.vt.acsMap = map[byte]rune{}
+	plain := []string{ti.Clear, ti.EnterCA, ti.ExitCA, ti.ShowCursor, ti.HideCursor, ti.AttrOff, ti.Underline, ti.Bold,
+		ti.Blink, ti.Reverse, ti.Dim, ti.Italic, ti.EnterKeypad, ti.ExitKeypad, ti.EnableAutoMargin, ti.DisableAutoMargin,
+		ti.StrikeThrough, ti.ResetFgBg, ti.EnableAcs, ti.EnterAcs, ti.ExitAcs, ti.CursorBack1, ti.CursorUp1, ti.Bell,
+		ti.DoubleUnderline, ti.CurlyUnderline, ti.DottedUnderline, ti.DashedUnderline, ti.UnderlineColorReset, ti.CursorDefault,
+		ti.CursorBlinkingBlock, ti.CursorSteadyBlock, ti.CursorBlinkingUnderline, ti.CursorSteadyUnderline, ti.CursorBlinkingBar,
+		ti.CursorSteadyBar, ti.CursorColorReset, ti.EnterUrl, ti.ExitUrl}
+	for _, c := range plain {
+		if len(c) == 1 && c[0] < 0x20 {
+			continue // a bare C0 control (sun clears with FF) is that terminal's business
+		}
+		if c != "" && !strings.Contains(c, "%p") {
+			t.TPuts(c)
+		}
+	}
+	col := []int{0, 7, 9, 200}[vsymChoice("colour", 4)]
+	if col >= ti.Colors {
+		col = 0 // the screen never sends a colour the terminal does not have (C15)
+	}
+	for _, c := range []string{ti.SetFg, ti.SetBg} {
+		if c != "" {
+			t.TPuts(ti.TParm(c, col))
+		}
+	}
+	if ti.SetFgBg != "" {
+		t.TPuts(ti.TParm(ti.SetFgBg, col, 7-col%8))
+	}
+	for _, c := range []string{ti.SetFgRGB, ti.SetBgRGB} {
+		if c != "" {
+			t.TPuts(ti.TParm(c, col, 255-col, 17))
+		}
+	}
+	if ti.SetFgBgRGB != "" {
+		t.TPuts(ti.TParm(ti.SetFgBgRGB, col, 255-col, 17, 1, 2, 3))
+	}
+	t.TPuts(ti.TGoto(3, 2))
+	vt := tty.vt
+	if len(vt.bad) > 0 {
+		vsymNote("malformed", vt.bad[0])
+	}
+	vsymAssert(len(vt.bad) == 0, "every capability string parses as complete control sequences: "+ti.Name)
+	clean := true
+	for i := range vt.cells {
+		if vt.cells[i].r != ' ' {
+			clean = false
+		}
+	}
+	vsymAssert(clean, "no capability string prints text (padding or parameter residue): "+ti.Name)
 }
